@@ -442,6 +442,27 @@ def nested_core():
                     "termSimWhen": [], "termAfter": [], "maxSteps": 7, "dt": [1, 2] if sub["termAfter"][1:] == ["seconds"] else [1, 1],
                     "table": t, "sched": [[1]], "impl": 0,
                 })
+    # a monitor of the PARENT executes `terminate` in a step in which monitors of its running sub-scenarios do
+    # something observable (log / require false / terminate simulation): the parent stops after ALL monitors ran
+    mon_req = {"pre": [], "inv": [], "body": [["wait"], ["require", "c"], ["wait"], ["require", "c"]]}
+    for submons in ([2], [4], [5], [2, 4]):
+        for tab in tables:
+            for mid in (False, True):
+                sub = sd(monitors=submons, hascompose=True, compose=[["while", "T", [["wait"], ["log", "sub"]]]])
+                if mid:     # Main > Mid (terminating monitor) > Leaf (observing monitors)
+                    sdefs = [sd(hascompose=True, compose=[["sdo", [2]], ["log", "b"], ["wait"], ["wait"]]),
+                             sd(monitors=[3], hascompose=True, compose=[["sdo", [3]], ["log", "never"]]), sub]
+                else:
+                    sdefs = [sd(monitors=[3], hascompose=True, compose=[["sdo", [2]], ["log", "b"], ["wait"]]), sub,
+                             sd(hascompose=True, compose=[["wait"]])]
+                t = {"T": [True], "F": [False]}
+                t.update(tab)
+                cases.append({
+                    "defs": [beh, mon_log, mon_term, mon_ts, mon_req], "agents": [1], "sdefs": sdefs, "top": 1,
+                    "monitors": sorted({m for s_ in sdefs for m in s_["monitors"]}), "records": [], "termWhen": [],
+                    "termSimWhen": [], "termAfter": [], "maxSteps": 7, "dt": [1, 1],
+                    "table": t, "sched": [[1]], "impl": 0,
+                })
     return cases
 
 
@@ -502,7 +523,8 @@ def duration_core():
     """Exhaustive core for durations: every duration construct x n in 0..3 x unit x time step,
     with a parent that acts in the step control returns to it."""
     cases = []
-    for dt in DTS:
+    # (besides the time steps used everywhere, some that do not divide the durations: 0.4, 1.5, 0.75 s)
+    for dt in DTS + [[2, 5], [3, 2], [3, 4]]:
         for unit in ("steps", "seconds"):
             for n in range(0, 4):
                 for form in ("dofor", "waitfor", "termAfter", "dountil", "waituntil"):
